@@ -107,6 +107,17 @@ func (r *bufferReader) remaining() int {
 	return len(r.buf) - r.offset
 }
 
+// capFor bounds the capacity pre-allocated for count announced entries by the
+// number of entries the remaining bytes can actually hold. Every entry that
+// is kept occupies a 2-byte length prefix followed by at least minSize bytes,
+// so a hostile count cannot force an allocation out of proportion to the input.
+func (r *bufferReader) capFor(count, minSize int) int {
+	if max := r.remaining() / (2 + minSize); count > max {
+		return max
+	}
+	return count
+}
+
 func (r *bufferReader) setError(msg string) {
 	if r.err == nil {
 		r.err = fmt.Errorf("%w: %s %s", ErrInvalidFrame, r.ctx, msg)
@@ -2206,7 +2217,7 @@ func DecodeQueuedState(buf []byte) (*QueuedState, error) {
 
 	// Routes
 	routeCount := int(r.readUint16())
-	q.Routes = make([]RouteAdvertise, 0, routeCount)
+	q.Routes = make([]RouteAdvertise, 0, r.capFor(routeCount, 28))
 	for i := 0; i < routeCount && r.err == nil; i++ {
 		length := int(r.readUint16())
 		data := r.readBytes(length)
@@ -2222,7 +2233,7 @@ func DecodeQueuedState(buf []byte) (*QueuedState, error) {
 
 	// Withdraws
 	withdrawCount := int(r.readUint16())
-	q.Withdraws = make([]RouteWithdraw, 0, withdrawCount)
+	q.Withdraws = make([]RouteWithdraw, 0, r.capFor(withdrawCount, 26))
 	for i := 0; i < withdrawCount && r.err == nil; i++ {
 		length := int(r.readUint16())
 		data := r.readBytes(length)
@@ -2238,7 +2249,7 @@ func DecodeQueuedState(buf []byte) (*QueuedState, error) {
 
 	// NodeInfos
 	nodeInfoCount := int(r.readUint16())
-	q.NodeInfos = make([]NodeInfoAdvertise, 0, nodeInfoCount)
+	q.NodeInfos = make([]NodeInfoAdvertise, 0, r.capFor(nodeInfoCount, 28))
 	for i := 0; i < nodeInfoCount && r.err == nil; i++ {
 		length := int(r.readUint16())
 		data := r.readBytes(length)
